@@ -101,7 +101,8 @@ CLAIMED = {
     'C09': dict(category='other', design_ref='DESIGN.md section 4 C09, section 9',
         text='Proved for every FeatureIDE rule element (any nesting, any number of operands; the document is an element tree value): '
              '_parse_rule returns a tree in the library form whose truth value under every assignment is the one the format gives the element '
-             '(n-ary conj / disj keep all operands, eq is an equivalence), and an element the library cannot represent raises. Bounded: documents '
+             '(n-ary conj / disj keep all operands, eq is an equivalence), and an element the library cannot represent raises; AFMReader.set_parse_tree '
+             'reports lexical and syntax errors to its collector only and never returns normally when the collector holds one. Bounded: documents '
              'from independent emitters for FeatureIDE, FaMa XML, AFM and Glencoe using each format\'s syntactic freedom, and the FaMa corpus '
              'against its Betty statistics.',
         note=BASE + 'xml.etree Element modelled as a value (tag, text or None, ordered children); attributes are not modelled, so the feature-tree '
